@@ -41,7 +41,13 @@ Definition batch_of (p : parts) (o : jop) : option batch :=
   match o with
   | JInsert f =>
       if has_nul (f_topic f) then None
-      else Some [MPutS (skey (f_id f)) f; MPutT (tkey f); MPutC (ckey f)]
+      else
+        (* the index entries of an overwritten frame with other keys go in the same batch *)
+        let drop := match kv_get (skey (f_id f)) (p_stream p) with
+                    | Some old => if same_keys old f then [] else [MDelT (tkey old); MDelC (ckey old)]
+                    | None => []
+                    end in
+        Some (drop ++ [MPutS (skey (f_id f)) f; MPutT (tkey f); MPutC (ckey f)])
   | JRemove i =>
       match kv_get (skey i) (p_stream p) with
       | None => None
